@@ -464,6 +464,11 @@ class Judge:
                 self.stats["restart"] += 1
             for name, text in (e.get("after") or {}).items():
                 self.texts[name] = text
+            for name, is_link in (e.get("links") or {}).items():
+                if (not is_link or not (e.get("link_targets_in_sync") or {}).get(name, True)) and not getattr(self, "_link_reported", False):
+                    self._link_reported = True
+                    self.add("S1", e["i"], "symlink-replaced-or-target-out-of-sync", "%s was a symbolic link to a file outside the checked directory; after the %s step it is %s" % (
+                        name, op, "a regular file (the real file was left untouched)" if not is_link else "out of sync with its target"), file=name)
         return self.violations
 
     # -- probes close the S3/S4 obligations of the preceding iteration -----------------------
